@@ -149,7 +149,7 @@ prop("C05", "c05",
      "alg and allowed, trusted issuer, audience, scopes, validity within leeway; subject id and attributes must equal the "
      "signed payload. Cases within 2 s of a time boundary are don't-care. Non-trivial: >= 1 mutation; distinct by (key set, "
      "assertions, header, mutation kinds).",
-     [dict(run="^TestOnlyValidTokensYieldSubjects$", quick=2000, thorough=120000, shards_thorough=12),
+     [dict(run="^TestOnlyValidTokensYieldSubjects$", quick=6000, thorough=120000, shards_thorough=12),
       dict(run="^TestRequiredScopesAreMatched$", quick=1500, thorough=80000, shards_thorough=4),
       dict(run="^TestKeysComeFromTheEndpointOfTheTokensIssuer$", quick=1000, thorough=20000, shards_thorough=4),
       dict(run="^FuzzTokenBytes$", fuzz=True, quick=1, thorough=1, shards_thorough=1, fuzztime_thorough=240, fuzz_workers=6)],
